@@ -37,10 +37,12 @@ LEVEL = "exploration"
 TECHNIQUE = "exhaustive (rotation family x side x operator) and (grid x degree x target grid x input grid) lattices; tensor identities against tensordot references and 50-digit polynomial values"
 LEVEL_TEXT = (
     "flavour rotations: the commutation identity is checked as a tensor identity (all inputs at once) for 6 "
-    "rotation families, 3 sides, named and explicit entry points, operators with/without errors, direct and "
+    "rotation families + 3 rotations near the identity, 3 sides (both sides also with two different matrices), named "
+    "and explicit entry points, operators with/without errors, square or not in x, direct and "
     "through an EKO archive; grid re-interpolation: for polynomial-output operators and polynomial inputs the "
-    "evolved values at all new nodes are compared with the exact ones for 7 target and 6 input grid kinds "
-    "(alone and paired), degrees 1-4 (thorough 1-6), log and linear grids"
+    "evolved values at all new nodes are compared with the exact ones for 9 target and 8 input grid kinds "
+    "(alone and paired, incl. grids 5e-6 / 2e-5 (relative) away from the operator grid and new grids of "
+    "the other interpolation mode), degrees 1-4 (thorough 1-6), log and linear grids"
 )
 LEVEL_NOTE = (
     "decides the property on the lattice only; linearity makes the basis of inputs complete; evolution/unified "
@@ -88,67 +90,112 @@ def _through_eko(op, err, xgrid, degree):
 SIDES = {"input": (True, False), "output": (False, True), "both": (True, True)}
 
 
+# rotations between the identity and the O(1) families: flavor_reshape drops a side that is "close to the
+# current basis".  Up to eb464c64 that was np.allclose(pids, eye) with numpy's defaults, i.e.
+# |pids - eye| <= 1e-8 + 1e-5 * |eye| entry by entry (now: equal up to rounding).  The members sit inside the
+# former absolute band (every entry within 5e-9 of the identity), inside the former relative band (diagonal
+# within 5e-6 of 1, off-diagonal exactly 0) and outside of both (entries 2e-5 away): all three must be rotated.
+def _near_identity_atol():
+    return np.eye(14) + 4e-9 * B.tensor((14, 14), phase=0.7)  # |tensor| <= 1.25
+
+
+def _near_identity_rtol():
+    return np.diag([1.0 + 5e-6 * np.cos(1.0 + i) for i in range(14)])
+
+
+def _near_identity_outside():
+    return np.eye(14) + 1.6e-5 * B.tensor((14, 14), phase=0.7)
+
+
+NEAR_IDENTITY = {
+    "near-identity-atol": _near_identity_atol,
+    "near-identity-rtol": _near_identity_rtol,
+    "near-identity-outside": _near_identity_outside,
+}
+ROTATIONS = dict(B.ROTATIONS)
+ROTATIONS.update(NEAR_IDENTITY)
+BASE_FAMILIES = list(B.ROTATIONS)
+
+
 def _evaluate_flavor(case):
     from eko.io import manipulate
     from eko.io.items import Operator
 
     fam, n, with_err, opkind, via = case["family"], case["n"], case["error"], case["opkind"], case["via_eko"]
+    nout = case.get("nout", n)  # operators that are not square in x (as left behind by a target-grid reshape)
     res = Result()
-    O = B.tensor((14, n, 14, n), phase=0.3)
+    O = B.tensor((14, nout, 14, n), phase=0.3)
     if opkind == "near-identity":
         O = 0.01 * O + np.einsum("ab,jk->ajbk", np.eye(14), np.eye(n))
-    err = 0.01 * np.abs(B.tensor((14, n, 14, n), phase=1.1)) if with_err else None
+    err = 0.01 * np.abs(B.tensor((14, nout, 14, n), phase=1.1)) if with_err else None
     grid = G.geometric(n, 1e-3)
     if via:
         elem, _xg, _deg = _through_eko(O, err, grid, 1)
     else:
         elem = Operator(O.copy(), None if err is None else err.copy())
-    M = B.ROTATIONS[fam]()
-    condM = float(np.linalg.cond(M))
+    M = ROTATIONS[fam]()
+    eye = np.eye(14)
     info = {"max_rel_dev": 0.0, "checks": 0}
     routes = ["flavor_reshape"]
     if fam == "evolution":
         routes.append("to_evol")
     if fam == "unified":
         routes.append("to_uni_evol")
+    # the members inside the "close to the current basis" bands get their own signature (one per band)
+    band = f"/{fam}" if fam in ("near-identity-atol", "near-identity-rtol") else ""
+    # every call: (signature, label of the side, route, target matrix | None, input matrix | None)
+    calls = []
     for side, (src, tgt) in SIDES.items():
         for route in routes:
-            sig = f"{route}/side={side}"  # the family is named in the message
-            where = f"family={fam} side={side} route={route} n={n} error={with_err} op={opkind} via_eko={via}"
-            try:
-                with warnings.catch_warnings():
-                    warnings.simplefilter("ignore")
-                    if route == "flavor_reshape":
-                        new = manipulate.flavor_reshape(
-                            elem, targetpids=M.copy() if tgt else None, inputpids=M.copy() if src else None
-                        )
-                    else:
-                        new = getattr(manipulate, route)(elem, source=src, target=tgt)
-            except Exception as e:  # noqa
-                res.fail(f"{sig}/raises", f"{type(e).__name__}: {e} {where}")
-                continue
-            Op = np.asarray(new.operator)
-            if Op.shape != O.shape:
-                res.fail(f"{sig}/shape", f"{where}: shape {Op.shape}")
-                continue
-            I = M if src else np.eye(14)
-            T = M if tgt else np.eye(14)
-            lhs = np.einsum("ajbk,bc->ajck", Op, I)
-            rhs = np.tensordot(T, O, axes=([1], [0]))
-            scale = float(np.abs(rhs).max())
-            dev = float(np.abs(lhs - rhs).max()) / scale
-            tol = 256.0 * EPS * max(condM, 1.0) * 14
-            info["checks"] += 1
-            if dev > tol:
-                ia = np.unravel_index(int(np.abs(lhs - rhs).argmax()), lhs.shape)
-                res.fail(
-                    sig,
-                    f"{where}: (O' I)[{ia}] = {lhs[ia]!r} but (T O)[{ia}] = {rhs[ia]!r} (rel. dev {dev:.2e}, tol {tol:.1e})",
-                )
-            else:
-                info["max_rel_dev"] = max(info["max_rel_dev"], dev / max(condM, 1.0))
-            if (new.error is None) != (err is None):
-                res.fail(f"{sig}/error-presence", f"{where}: error tensor {'appeared' if err is None else 'lost'}")
+            calls.append((f"{route}{band}/side={side}", side, route, M if tgt else None, M if src else None))
+    if fam in BASE_FAMILIES:
+        # both sides in ONE call with two different matrices (the next family on the input side) ...
+        nxt = BASE_FAMILIES[(BASE_FAMILIES.index(fam) + 1) % len(BASE_FAMILIES)]
+        calls.append(("flavor_reshape/side=both-distinct", f"both(target={fam},input={nxt})", "flavor_reshape", M, ROTATIONS[nxt]()))
+        if fam != "identity":
+            # ... and with the exact identity on one of the two sides (that side dropped, the other one kept)
+            calls.append(("flavor_reshape/side=both-eye-target", "both(target=identity)", "flavor_reshape", eye.copy(), M))
+            calls.append(("flavor_reshape/side=both-eye-input", "both(input=identity)", "flavor_reshape", M, eye.copy()))
+    for sig, side, route, Tm, Im in calls:
+        where = f"family={fam} side={side} route={route} n={n} nout={nout} error={with_err} op={opkind} via_eko={via}"
+        try:
+            with warnings.catch_warnings():
+                warnings.simplefilter("ignore")
+                if route == "flavor_reshape":
+                    new = manipulate.flavor_reshape(
+                        elem, targetpids=None if Tm is None else Tm.copy(), inputpids=None if Im is None else Im.copy()
+                    )
+                else:
+                    new = getattr(manipulate, route)(elem, source=Im is not None, target=Tm is not None)
+        except Exception as e:  # noqa
+            res.fail(f"{sig}/raises", f"{type(e).__name__}: {e} {where}")
+            continue
+        Op = np.asarray(new.operator)
+        if Op.shape != O.shape:
+            res.fail(f"{sig}/shape", f"{where}: shape {Op.shape}")
+            continue
+        I = eye if Im is None else Im
+        T = eye if Tm is None else Tm
+        cond = max(float(np.linalg.cond(I)), float(np.linalg.cond(T)), 1.0)
+        lhs = np.einsum("ajbk,bc->ajck", Op, I)
+        rhs = np.tensordot(T, O, axes=([1], [0]))
+        scale = float(np.abs(rhs).max())
+        dev = float(np.abs(lhs - rhs).max()) / scale
+        tol = 256.0 * EPS * cond * 14
+        info["checks"] += 1
+        if dev > tol:
+            ia = np.unravel_index(int(np.abs(lhs - rhs).argmax()), lhs.shape)
+            res.fail(
+                sig,
+                f"{where}: (O' I)[{ia}] = {lhs[ia]!r} but (T O)[{ia}] = {rhs[ia]!r} (rel. dev {dev:.2e}, tol {tol:.1e})",
+            )
+        else:  # head-room recorded separately for the members inside the former "close to the current basis" bands
+            key = "max_rel_dev_near_identity" if band else "max_rel_dev"
+            info[key] = max(info.get(key, 0.0), dev / cond)
+        if (new.error is None) != (err is None):
+            res.fail(f"{sig}/error-presence", f"{where}: error tensor {'appeared' if err is None else 'lost'}")
+        elif err is not None and np.asarray(new.error).shape != O.shape:
+            res.fail(f"{sig}/error-shape", f"{where}: error tensor of shape {np.asarray(new.error).shape}")
     res.info = info
     res.nontrivial = fam != "identity"
     res.outcome = f"flavor:{fam}"
@@ -158,6 +205,10 @@ def _evaluate_flavor(case):
 # ------------------------------------------------------------------------------------------------
 # grid re-interpolation
 # ------------------------------------------------------------------------------------------------
+REL_KINDS = {"nodes-rel-5e-6": 5e-6, "nodes-rel-2e-5": 2e-5}
+REL_INSIDE = "nodes-rel-5e-6"
+
+
 def target_kinds(g, is_log):
     foreign = G.geometric if is_log else G.linear  # a foreign grid natural for the interpolation mode
     out = {
@@ -172,6 +223,10 @@ def target_kinds(g, is_log):
         t = list(g)
         t[0] = min(2.0 * g[0], (g[0] * g[1]) ** 0.5)
         out["small-x"] = t
+    # every node moved by a fixed RELATIVE amount (last node stays 1): inside / outside the relative band
+    # (rtol 1e-5) in which xgrid_check took the new grid for the current one up to eb464c64
+    for name, rel in REL_KINDS.items():
+        out[name] = [x * (1.0 + rel) for x in g[:-1]] + [g[-1]]
     return out
 
 
@@ -188,6 +243,8 @@ def input_kinds(g, degree, is_log):
         t = list(g)
         t[0] = 0.5 * g[0]
         out["small-x"] = t
+    for name, rel in REL_KINDS.items():  # first node down, inner nodes up: still covers the operator grid
+        out[name] = [g[0] * (1.0 - rel)] + [x * (1.0 + rel) for x in g[1:-1]] + [g[-1]]
     return {k: v for k, v in out.items() if len(v) > degree and all(b > a for a, b in zip(v, v[1:]))}
 
 
@@ -201,6 +258,19 @@ PAIRS_BOTH = [
     ("small-x", "refined"),
     ("midpoints", "small-x"),
     ("nodes-1ulp", "nodes-1ulp"),
+    ("nodes-rel-5e-6", "nodes-rel-5e-6"),
+    ("nodes-rel-5e-6", "refined"),
+    ("midpoints", "nodes-rel-5e-6"),
+    ("nodes-rel-2e-5", "nodes-rel-2e-5"),
+]
+# combos repeated with the interpolation mode (log flag) of ONE of the new grids opposite to the operator
+# grid's: (target kind, input kind, which grid is flipped)
+FLIPS = [
+    (None, "shifted", "input"),  # (a 'refined' input grid contains the operator nodes: blind to the mode)
+    (None, "foreign", "input"),
+    ("midpoints", "foreign", "input"),
+    ("midpoints", None, "target"),
+    ("refined", "foreign", "target"),
 ]
 
 
@@ -213,7 +283,7 @@ def _evaluate_xgrid(case):
     g = G.make(shape, n, xmin)
     res = Result()
     ref = G.PolyRef(g, is_log)
-    info = {"max_err_over_tol": 0.0, "checks": 0, "shortcuts": 0}
+    info = {"max_err_over_tol": 0.0, "max_err_over_tol_logflip": 0.0, "checks": 0, "shortcuts": 0}
     nchecked = 0
     for d in case["degrees"]:
         if n <= d:
@@ -232,26 +302,40 @@ def _evaluate_xgrid(case):
             elem, xg, deg = Operator(O.copy(), err.copy()), interpolation.XGrid(list(g), log=is_log), d
         condX = G.MonomialCond(g, is_log, d)
         tk, ik = target_kinds(g, is_log), input_kinds(g, d, is_log)
-        combos = [(t, None) for t in tk] + [(None, i) for i in ik] + [(t, i) for t, i in PAIRS_BOTH if t in tk and i in ik]
-        for tname, iname in combos:
+        combos = [(t, None, None) for t in tk] + [(None, i, None) for i in ik]
+        combos += [(t, i, None) for t, i in PAIRS_BOTH if t in tk and i in ik]
+        combos += [(t, i, f) for t, i, f in FLIPS if (t is None or t in tk) and (i is None or i in ik)]
+        plain = {}  # (target kind, input kind) -> bytes of the operator reshaped with unflipped modes
+        for tname, iname, flip in combos:
             Y = tk[tname] if tname else None
             Z = ik[iname] if iname else None
             side = "target" if Z is None else ("input" if Y is None else "both")
+            tlog = (not is_log) if flip == "target" else is_log
+            zlog = (not is_log) if flip == "input" else is_log
             # one signature per (defect class, mode): grids that differ from the operator grid only at very
-            # small x form their own class, whichever side they are used on
+            # small x form their own class, whichever side they are used on; so do grids that differ from it
+            # by a relative amount inside rtol of the "close to the current one" shortcut, and the
+            # combos with a grid declared in the other interpolation mode
             near = "small-x" in (tname, iname)
-            sig = f"xgrid_reshape/{'near-nodes-grid' if near else side}/log={is_log}"
-            where = f"log={is_log} shape={shape} xmin={xmin} n={n} degree={d} target={tname} input={iname} via_eko={via}"
+            if near:
+                cls = "near-nodes-grid"
+            elif REL_INSIDE in (tname, iname):
+                cls = "near-nodes-rel"  # one decision (xgrid_check) serves both sides
+            elif flip:
+                cls = f"{flip}-logflip/side={side}"
+            else:
+                cls = side
+            sig = f"xgrid_reshape/{cls}/log={is_log}"
+            where = (
+                f"log={is_log} shape={shape} xmin={xmin} n={n} degree={d} target={tname} input={iname} "
+                f"flipped-mode={flip} via_eko={via}"
+            )
+            tgrid = None if Y is None else interpolation.XGrid(list(Y), log=tlog)
+            zgrid = None if Z is None else interpolation.XGrid(list(Z), log=zlog)
             try:
                 with warnings.catch_warnings(record=True) as wlist:
                     warnings.simplefilter("always")
-                    new = manipulate.xgrid_reshape(
-                        elem,
-                        xg,
-                        deg,
-                        targetgrid=None if Y is None else interpolation.XGrid(list(Y), log=is_log),
-                        inputgrid=None if Z is None else interpolation.XGrid(list(Z), log=is_log),
-                    )
+                    new = manipulate.xgrid_reshape(elem, xg, deg, targetgrid=tgrid, inputgrid=zgrid)
                 info["shortcuts"] += sum("close to the current" in str(w.message) for w in wlist)
             except Exception as e:  # noqa
                 res.fail(f"{sig}/raises", f"{type(e).__name__}: {e} {where}")
@@ -262,15 +346,34 @@ def _evaluate_xgrid(case):
             if Op.shape != (14, len(Ye), 14, len(Ze)):
                 res.fail(f"{sig}/shape", f"{where}: shape {Op.shape}, expected {(14, len(Ye), 14, len(Ze))}")
                 continue
+            if flip == "target":
+                # the mode declared for the target grid is immaterial (the target nodes are plain points):
+                # same numbers as with the unflipped grid, bit by bit
+                info["checks"] += 1
+                nchecked += 1
+                if (tname, iname) not in plain:
+                    res.fail(f"{sig}/no-partner", f"{where}: unflipped partner combo failed")
+                elif plain[(tname, iname)] != Op.tobytes():
+                    res.fail(sig, f"{where}: the operator depends on the log flag of the target grid")
+                continue
+            if flip is None:
+                plain[(tname, iname)] = Op.tobytes()
             QY = ref.monomials(Ye, d)
-            QZ = ref.monomials(Ze, d)
+            if flip == "input":
+                # inputs exactly representable on an input grid of the other mode are the monomials of THAT mode
+                refin = G.PolyRef(Ze, zlog)
+                QZ = refin.monomials(Ze, d)
+                QXin = refin.monomials(g, d)
+            else:
+                QZ = ref.monomials(Ze, d)
+                QXin = QX
             lhs = np.einsum("aibl,lp->aibp", Op, QZ)
-            inner = np.einsum("mabk,kp->mabp", W, QX)
+            inner = np.einsum("mabk,kp->mabp", W, QXin)
             rhs = np.einsum("im,mabp->aibp", QY, inner)
             # rounding model (see C34): target side cond of the operator grid at y_i, input side cond of the
             # new input grid at the operator nodes
             cy = np.array([condX(y) for y in Ye]) if Y is not None else np.ones(len(Ye))
-            cz = max(G.MonomialCond(Z, is_log, d)(x) for x in g) if Z is not None else 1.0
+            cz = max(G.MonomialCond(Z, zlog, d)(x) for x in g) if Z is not None else 1.0
             tol = S * (2e-13 + 64.0 * EPS * (cy + cz)) * max(1.0, float(np.abs(QZ).max()))
             dev = np.abs(lhs - rhs).max(axis=(0, 2, 3))
             r = dev / tol
@@ -285,8 +388,9 @@ def _evaluate_xgrid(case):
                     f"{ia[0]}: reshaped operator gives {lhs[ia[0], i, ia[1], ia[2]]!r}, original operator gives "
                     f"{rhs[ia[0], i, ia[1], ia[2]]!r} (tol {tol[i]:.2e}; first nodes: operator {g[0]!r}, target {Ye[0]!r}, input {Ze[0]!r})",
                 )
-            else:
-                info["max_err_over_tol"] = max(info["max_err_over_tol"], float(r[i]))
+            else:  # head-room recorded per class
+                key = "max_err_over_tol" + ("_near_nodes_rel" if cls == "near-nodes-rel" else "_logflip" if flip else "")
+                info[key] = max(info.get(key, 0.0), float(r[i]))
             if (new.error is None) or np.asarray(new.error).shape != Op.shape:
                 res.fail(f"{sig}/error-shape", f"{where}: error tensor missing or of different shape")
             if not via and d == case["degrees"][0]:
@@ -294,13 +398,7 @@ def _evaluate_xgrid(case):
                 try:
                     with warnings.catch_warnings():
                         warnings.simplefilter("ignore")
-                        new0 = manipulate.xgrid_reshape(
-                            Operator(O.copy(), None),
-                            xg,
-                            deg,
-                            targetgrid=None if Y is None else interpolation.XGrid(list(Y), log=is_log),
-                            inputgrid=None if Z is None else interpolation.XGrid(list(Z), log=is_log),
-                        )
+                        new0 = manipulate.xgrid_reshape(Operator(O.copy(), None), xg, deg, targetgrid=tgrid, inputgrid=zgrid)
                     if new0.error is not None:
                         res.fail(f"{sig}/no-error/error-invented", f"{where}: an operator without error tensor got one")
                     if np.asarray(new0.operator).tobytes() != Op.tobytes():
@@ -323,7 +421,7 @@ def run(ctx):
     thorough = ctx.thorough()
     cases = []
     # ---- flavour lattice
-    for fam in B.ROTATIONS:
+    for fam in ROTATIONS:
         for n in ([2, 5] if not thorough else [2, 3, 5, 9]):
             for with_err in (False, True):
                 for opkind in ("dense", "near-identity"):
@@ -333,6 +431,12 @@ def run(ctx):
                         cases.append(
                             {"kind": "flavor", "family": fam, "n": n, "error": with_err, "opkind": opkind, "via_eko": via}
                         )
+        # operators that are not square in x: (14, nout, 14, n)
+        for nout, n in ([(3, 5)] if not thorough else [(3, 5), (9, 2), (14, 5), (5, 14)]):
+            for with_err in (False, True):
+                cases.append(
+                    {"kind": "flavor", "family": fam, "n": n, "nout": nout, "error": with_err, "opkind": "dense", "via_eko": False}
+                )
     nflav = len(cases)
     # ---- grid lattice
     degrees = [1, 2, 3, 4, 5, 6] if thorough else [1, 2, 3, 4]
@@ -354,10 +458,14 @@ def run(ctx):
     results = ctx.run_cases(cases, evaluate)
     nchecks = sum((r[1][3] or {}).get("checks", 0) for r in results)
     ctx.rule = (
-        f"flavour: complete product of 6 rotation families x sizes x error yes/no x 2 operator kinds (+ EKO-archive "
-        f"route) = {nflav} cases, each with 3 sides and every entry point (flavor_reshape; to_evol / to_uni_evol); "
+        f"flavour: complete product of {len(ROTATIONS)} rotation families (6 + 3 near the identity: every entry within 5e-9, "
+        "diagonal within 5e-6 relative, entries 2e-5 away) x sizes x error yes/no x 2 "
+        f"operator kinds (+ EKO-archive route, + operators not square in x) = {nflav} cases, each with 3 sides and every "
+        "entry point (flavor_reshape; to_evol / to_uni_evol), and for the 6 base families both sides in one call with two "
+        "different matrices (next family on the input side) resp. the exact identity on one side; "
         f"grid: {len(cases) - nflav} (mode, family, x_min, size[, EKO route]) cases x degrees {degrees} x "
-        "(7 target kinds + 6 input kinds + 9 pairs; 'small-x' kinds only where nodes below 1e-7 exist); "
+        "(9 target kinds + 8 input kinds + 13 pairs + 5 combos with the log flag of one new grid flipped; 'small-x' kinds "
+        "only where nodes below 1e-7 exist; 'nodes-rel' kinds move every node by 5e-6 resp. 2e-5 relative); "
         f"{nchecks} tensor identities checked; non-trivial = a non-identity rotation / at least one admissible degree"
     )
     ctx.assumptions += [
@@ -366,4 +474,8 @@ def run(ctx):
         "input grids cover [x_min, 1] of the operator grid (the 'small-x' input grid moves the first node down, the "
         "'small-x' target grid moves it up); no extrapolation is demanded",
         "error tensors: only presence/shape are checked",
+        "no tolerance is granted to a new grid / basis that is merely CLOSE to the current one: the values at the new "
+        "nodes / in the new basis are demanded to rounding accuracy ('near-identity-*', 'nodes-rel-*', 'nodes-1ulp')",
+        "input grid of the other interpolation mode: the exactly representable inputs are the monomials of that mode; "
+        "the mode declared for a target grid is immaterial (bitwise equal operator demanded)",
     ]
